@@ -35,6 +35,8 @@ mod roblox;
 mod standard_library;
 mod upgrade_std;
 mod validate_config;
+#[cfg(feature = "verif-hooks")]
+mod verif_trace;
 
 macro_rules! error {
     ($fmt:expr) => {
@@ -129,6 +131,16 @@ fn emit_codespan(
     files: &codespan::Files<&str>,
     diagnostic: &CodespanDiagnostic<codespan::FileId>,
 ) {
+    #[cfg(feature = "verif-hooks")]
+    verif_trace::event(&format!(
+        "emit {} {}",
+        diagnostic.code.as_deref().unwrap_or("-"),
+        diagnostic
+            .labels
+            .first()
+            .map_or(0, |label| label.range.start)
+    ));
+
     let lock = OPTIONS.read().unwrap();
     let opts = lock.as_ref().unwrap();
 
@@ -177,6 +189,12 @@ fn emit_codespan_locked(
     let stdout = termcolor::StandardStream::stdout(get_color());
     let mut stdout = stdout.lock();
 
+    #[cfg(feature = "verif-hooks")]
+    let _verif_unlock = {
+        verif_trace::event("lock");
+        verif_trace::OnDrop("unlock".to_owned())
+    };
+
     emit_codespan(&mut stdout, files, diagnostic);
 }
 
@@ -186,6 +204,12 @@ fn read<R: Read>(
     lua_version: LuaVersion,
     mut reader: R,
 ) {
+    #[cfg(feature = "verif-hooks")]
+    let _verif_job_end = {
+        verif_trace::event(&format!("job_start {}", filename.display()));
+        verif_trace::OnDrop("job_end".to_owned())
+    };
+
     let mut buffer = Vec::new();
     if let Err(error) = reader.read_to_end(&mut buffer) {
         error!(
@@ -195,6 +219,8 @@ fn read<R: Read>(
         );
 
         LINT_ERRORS.fetch_add(1, Ordering::SeqCst);
+        #[cfg(feature = "verif-hooks")]
+        verif_trace::event("add errors 1");
         return;
     }
 
@@ -214,6 +240,8 @@ fn read<R: Read>(
             Err(errors) => {
                 for error in errors {
                     PARSE_ERRORS.fetch_add(1, Ordering::SeqCst);
+                    #[cfg(feature = "verif-hooks")]
+                    verif_trace::event("add parse 1");
                     match error {
                         full_moon::Error::AstError(ast_error) => {
                             let token = ast_error.token();
@@ -299,12 +327,29 @@ fn read<R: Read>(
 
     LINT_ERRORS.fetch_add(errors, Ordering::SeqCst);
     LINT_WARNINGS.fetch_add(warnings, Ordering::SeqCst);
+    #[cfg(feature = "verif-hooks")]
+    verif_trace::event(&format!(
+        "add errors {errors}\n{:?} add warnings {warnings}",
+        std::thread::current().id()
+    ));
 
     let stdout = termcolor::StandardStream::stdout(get_color());
     let mut stdout = stdout.lock();
 
+    #[cfg(feature = "verif-hooks")]
+    let _verif_unlock = {
+        verif_trace::event("lock");
+        verif_trace::OnDrop("unlock".to_owned())
+    };
+
     for diagnostic in diagnostics {
         if opts.luacheck {
+            #[cfg(feature = "verif-hooks")]
+            verif_trace::event(&format!(
+                "emit {} {}",
+                diagnostic.diagnostic.code, diagnostic.diagnostic.primary_label.range.0
+            ));
+
             // Existing Luacheck consumers presumably use --formatter plain
             let primary_label = &diagnostic.diagnostic.primary_label;
             let end = files.location(source_id, primary_label.range.1).unwrap();
@@ -401,6 +446,8 @@ fn read_file(checker: &Checker<toml::value::Value>, lua_version: LuaVersion, fil
             Err(error) => {
                 error!("Couldn't open file {}: {}", filename.display(), error);
                 LINT_ERRORS.fetch_add(1, Ordering::SeqCst);
+                #[cfg(feature = "verif-hooks")]
+                verif_trace::event("add errors 1");
                 return;
             }
         },
@@ -703,6 +750,8 @@ fn start(mut options: opts::Options) {
                 );
 
                 LINT_ERRORS.fetch_add(1, Ordering::SeqCst);
+                #[cfg(feature = "verif-hooks")]
+                verif_trace::event("add errors 1");
             }
         };
     }
@@ -715,6 +764,12 @@ fn start(mut options: opts::Options) {
         LINT_WARNINGS.load(Ordering::SeqCst),
         STANDARD_LIBRARY_ERRORS.load(Ordering::SeqCst),
     );
+
+    #[cfg(feature = "verif-hooks")]
+    verif_trace::event(&format!(
+        "totals parse {parse_errors} errors {lint_errors} warnings {lint_warnings} std {standard_library_errors} panics {}",
+        pool.panic_count()
+    ));
 
     if !options.luacheck && !options.no_summary {
         log_total(parse_errors, lint_errors, lint_warnings).ok();
